@@ -191,7 +191,7 @@ M("C08", "staged set is all dirty files", F, "vcs.py", "        for filepath in 
 M("C08", "tag named by the old version", F, "vcs.py", "vcs_api.tag(tag_name=new_version, tag_message=tag_message)", "vcs_api.tag(tag_name=cfg.current_version, tag_message=tag_message)", "new version")
 M("C08", "commit inside the add loop", F, "vcs.py", "        for filepath in filepaths:\n            vcs_api.add(filepath)\n\n        vcs_api.commit(commit_message)", "        for filepath in filepaths:\n            vcs_api.add(filepath)\n            vcs_api.commit(commit_message)", "loop")
 M("C08", "show skips the tag lookup", F, "cli.py", "    if not ignore_vcs_tag:\n        cfg = _update_cfg_from_vcs(cfg, fetch)\n\n    if env:", "    if ignore_vcs_tag:\n        cfg = _update_cfg_from_vcs(cfg, fetch)\n\n    if env:", "R4")
-M("C08", "filepaths from a different set", F, "cli.py", "    filepaths = set(cfg.file_patterns.keys())", "    filepaths = set(list(cfg.file_patterns.keys())[:1])", "configured file set")
+M("C08", "filepaths from a different set", F, "cli.py", "    filepaths = set(cfg.file_patterns.keys())", "    filepaths = set(list(cfg.file_patterns.keys())[:1])", "not wired")
 M("C08", "twin: loop variable renamed", S, "vcs.py", "        for filepath in filepaths:\n            vcs_api.add(filepath)", "        for path in filepaths:\n            vcs_api.add(path)")
 M("C08", "twin: sorted staging order", S, "vcs.py", "        for filepath in filepaths:\n            vcs_api.add(filepath)", "        for filepath in sorted(filepaths):\n            vcs_api.add(filepath)")
 
